@@ -79,7 +79,7 @@ def run(ctx):
 
 MANIFEST = {
     "category": "other",
-    "technique": "poll-discipline rule (E6) on MIR: every Poll::Pending exit dominated by an inner Pending edge or a wake, over all poll functions of the workspace",
+    "technique": "poll-discipline rule (E6) on MIR: every Poll::Pending exit dominated by an inner Pending edge or a wake, over all poll functions of the workspace; no-manufactured-end rule over the stream layers of the subscription",
     "text": "Static over all paths of every poll function: no Pending exit after an inner Ready without a wake or re-poll. Covers any number and kind of invalid messages because it quantifies over paths. Decides the stall shape only; delivery by the gossip layer is not decided.",
     "note": "Trusted: rustc MIR, driver, rule engine; Future/Stream contract (a Pending return must have arranged a wake-up).",
 }
